@@ -6,6 +6,8 @@
  *           directly (left/right/parent pointers set by the harness, heights
  *           exact), so any balanced shape can be the starting point.
  *   <op>    i<key> = iv_avl_tree_insert of a fresh node with that key
+ *           I<key> = iv_avl_tree_insert of the node object that is already linked in the tree
+ *                    under that key (double registration); like i<key> when the key is absent
  *           d<key> = iv_avl_tree_delete of the node carrying that key
  *                    (rc 1, no call, when the key is absent)
  * stdout: one line per case; per op
@@ -353,7 +355,13 @@ int main(int argc, char **argv)
 			long key = atol(o + 1);
 			int rc;
 
-			if (o[0] == 'i') {
+			if (o[0] == 'I' && lookup(key) != NULL) {
+				/* double registration: the LIVE node object that holds the key (leaf, interior node
+				 * or root) is handed to insert again; insert must return -1 and store nothing.
+				 * Nothing is allocated and nothing is freed, whatever insert returns. */
+				struct node *n = lookup(key);
+				rc = iv_avl_tree_insert(&tree, &n->an);
+			} else if (o[0] == 'i' || o[0] == 'I') {
 				/* a node object handed to insert holds arbitrary old contents: vary the garbage
 				 * (0x01 looks like a stale height-1 leaf, as after delete + re-insert of the same object) */
 				static const unsigned char garbage[4] = { 0xaa, 0x01, 0x00, 0x02 };
